@@ -140,6 +140,20 @@ def run(ctx):
             for kb in w.keys[:3]:
                 rot.append(f'sxg.sign.mock.rotate {exs(ev)} {ka["cert"]} {kb["cert"]} {hexs(b"https://example.com/c")} {hexs(b"https://example.com/v")} 5 10')
     ctx.both(rot)
+    # repetition on the same object: the bundle Signer asked twice for its vouched subset (bsig.sign checks the second answer inside the
+    # harness), the web-bundle hash computed from a handle that has been read from before
+    kS = w.keys[0]
+    rep = []
+    for v in ('b1', 'b2'):
+        bb = bundle(v, b'https://example.com/', None, None, [exch(b'https://example.com/', 200, H[:2], b'body'), exch(b'https://example.com/2', 200, H[:1], b'two')])
+        rep.append(f'bsig.sign {bb} 16 {kS["cert"]}:{hexs(b"ocsp")}:nil {kS["key"]} {hexs(b"https://example.com/validity")} 1517418800 3600')
+    for op, r in zip(rep, ctx.go(rep)):
+        ctx.records.append((f'c18.signer-asked-twice {op.split(" ")[1]}', (r or 'crash').split(' ')[0] + (' ' + ' '.join((r or '').split(' ')[1:3]) if r and r.startswith('err') else ''), 'ok'))
+    hh = []
+    for n_ in (0, 1, 10, 100, 1000):
+        data = rbytes(rng, 300)
+        hh += [f'ib.sha512.handle {hexs(data)} {n_}']
+    ctx.both(hh)
     # concurrency under the race detector
     G, R = (64, 20) if thorough else (8, 10)
     e3 = ex('b3', b'https://example.com/', b'GET', [], 200, H[:4], b'sig', b'payload' * 50)
